@@ -51,6 +51,10 @@ def gen_scenario(prop: str, idx: int) -> dict:
     # trace with a lost parent or outside the window that also carries
     # several workflow names)
     mixed = idx >= MIXED_BASE
+    # MIXED_BASE + 1000 on: additionally clock skew inside a trace (a child
+    # span that starts before, or in the same nanosecond as, its root) and,
+    # for C10, duplicates that carry another trace id
+    skewed = idx >= MIXED_BASE + 1000
     # realistic nanosecond clock: the ingestion period does not start or end
     # on a round number (window borders are then not exactly representable
     # as floats)
@@ -160,6 +164,10 @@ def gen_scenario(prop: str, idx: int) -> dict:
                 emit(kd, sid, st + 1 + j)
 
         emit(shape, None, base)
+        if (skewed and kind in ("ok", "badname", "dangling") and len(sp) > 1
+                and base - T0_ - buf * MIN > 25 and rng.random() < 0.6):
+            for d in rng.sample(sp[1:], rng.randint(1, min(2, len(sp) - 1))):
+                d["st"] = sp[0]["st"] - rng.choice([0, 0, 1, 7, 20])
         if kind == "edge":
             lo_w, hi_w = T0_ + buf * MIN, T0_ + HORIZON_ - buf * MIN
             if rng.random() < 0.5:
@@ -231,6 +239,12 @@ def gen_scenario(prop: str, idx: int) -> dict:
         if rng.random() < 0.5:
             d["type"] = "DUP"
             faults["dup_payload_differs"] += 1
+        if focus == "C10" and skewed and rng.random() < 0.4:
+            others = sorted({s["trace"] for s in stream} - {d["trace"]})
+            if others:
+                d["trace"] = rng.choice(others)
+                faults["dup_trace_differs"] = faults.get(
+                    "dup_trace_differs", 0) + 1
         if focus == "C10" and rng.random() < 0.3:
             cands = [s["id"] for s in stream if s["trace"] == d["trace"]
                      and s["id"] != d["id"]] + [None]
